@@ -2,7 +2,8 @@
 from mats import *
 from core import time_limit, CallTimeout
 
-RULE = ("seeded random integer matrices as for C12 (incl. infeasible systems, all columns forced, no rows left); "
+RULE = ("seeded random integer matrices as for C12 (incl. infeasible systems, all columns forced, no rows left) and, for a quarter of the cases, "
+        "implication chains over boolean columns with shuffled rows (one loop round of reducable_rows_and_columns per link); "
         "reducable_rows, reducable_columns_approx, reducable_rows_and_columns and reduce(rows, cols) compared with the model "
         "(masks, reduced matrix, remaining bounds); oracle: full enumeration of the box (<= 20000 points quick): reported rows "
         "hold at every in-box point, forced columns hold in every solution, the reduced system's solution set equals the "
@@ -34,6 +35,7 @@ def do_case(ctx, inp):
         ctx.fail("reduction-does-not-terminate", {"detail": str(e)}); return
     Rs = snap_poly(R)
     tg = set()
+    if inp.get("chain"): tg.add("implication-chain")
     if any(rr): tg.add("reducible-row")
     if any(c is not None for c in rc): tg.add("forced-column")
     if all(c is not None for c in fcols_l): tg.add("all-columns-forced")
@@ -81,4 +83,7 @@ def do_case(ctx, inp):
 def run(ctx):
     n = (400 if ctx.quick else 6000) * (3 if ctx.search else 1)
     for _ in range(n):
-        do_case(ctx, {"p": gen_poly(ctx.rng, ctx.quick, wide=ctx.rng.random() < 0.05)})
+        if ctx.rng.random() < 0.25:
+            do_case(ctx, {"p": gen_chain(ctx.rng, ctx.quick), "chain": True})
+        else:
+            do_case(ctx, {"p": gen_poly(ctx.rng, ctx.quick, wide=ctx.rng.random() < 0.05)})
